@@ -337,7 +337,8 @@ func runC05(t *testing.T, tape *simrt.Tape, env dst.Env) *simrt.Outcome {
 				}
 				return f[:len(f)-k], "truncated blocks"
 			case 5:
-				extra := make([]byte, 16*(1+tape.Choose(simrt.Fault, 3)))
+				// whole blocks, or a few word-aligned / odd bytes
+				extra := make([]byte, simrt.Pick(tape, simrt.Fault, 16, 32, 48, 4, 8, 12, 1+tape.Choose(simrt.Fault, 15)))
 				tape.Fill(simrt.Fault, extra)
 				return append(f, extra...), "extended"
 			default:
